@@ -17,7 +17,7 @@ import ast, os, sys, time, inspect, importlib, itertools
 import z3
 from specs import duck
 from specs.duck import is_sym
-from pyvc.contract import SObj, cls_of, Contract
+from pyvc.contract import SObj, cls_of, Contract, SSeq, SSlice
 
 DROP_CALLS = {'print'}
 DROP_ATTR_BASES = {'log', 'logging'}
@@ -656,6 +656,11 @@ class Interp(object):
                 v = l in r
             elif isinstance(r, (list, tuple)) and is_sym(l):
                 v = duck.Or(*[l == x for x in r]) if r else False
+            elif not is_sym(l) and not is_sym(r) and not isinstance(l, SObj) and not isinstance(r, SObj):
+                try:
+                    v = l in r
+                except TypeError as ex:
+                    raise PyRaise('TypeError', str(ex), node)
             else:
                 raise Unsupported('in')
             return v if isinstance(op, ast.In) else duck.Not(v)
@@ -740,6 +745,12 @@ class Interp(object):
             lo = self.eval(e.slice.lower, env, globs) if e.slice.lower else None
             hi = self.eval(e.slice.upper, env, globs) if e.slice.upper else None
             st = self.eval(e.slice.step, env, globs) if e.slice.step else None
+            if isinstance(o, SSeq):
+                if st is not None or lo is None or hi is None:
+                    raise Unsupported('slice form on opaque sequence')
+                # the slice must stay inside the sequence (no clamping is relied upon): side obligation
+                self.oblige('slice-inbounds@%d' % e.lineno, duck.And(self.num(lo) >= 0, self.num(lo) <= self.num(hi), self.num(hi) <= o.length), e)
+                return SSlice(o, self.num(lo), self.num(hi))
             if isinstance(o, SObj):
                 return self.call_method(o, '__getitem__', [slice(lo, hi, st)], e)
             if is_sym(lo) or is_sym(hi) or is_sym(st) or is_sym(o):
@@ -864,7 +875,7 @@ class Interp(object):
         raise Unsupported('call of %r' % (f,))
 
     def call_builtin(self, f, args, kwargs, node):
-        sym = any(is_sym(a) or isinstance(a, SObj) for a in args)
+        sym = any(is_sym(a) or isinstance(a, (SObj, SSeq, SSlice)) for a in args)
         if not sym:
             if f in (list, tuple) and args and isinstance(args[0], (list, tuple)) and any(
                     is_sym(x) or isinstance(x, SObj) for x in args[0]):
@@ -896,6 +907,8 @@ class Interp(object):
             return duck.pyhash(self.num(a))
         if f is len:
             a = args[0]
+            if isinstance(a, SSeq):
+                return a.length
             if isinstance(a, SObj):
                 return self.call_method(a, '__len__', [], node)
         if f in (min, max) and len(args) >= 2:
